@@ -149,7 +149,17 @@ def wide_oracle(c, r):
     try:
         cfgv, ops = clientlib.case_ops(c)
         n = len([o for o in ops if o[0] == 'call'])
-        for d in clientlib.parse_calls(r, n)[0]:
+        calls = [o for o in ops if o[0] == 'call']
+        for i, d in enumerate(clientlib.parse_calls(r, n)[0]):
+            if d['kind'] == 'raised' and d['err'] == 1 and any(e[0] == 'S' for e in d['events']):
+                # ValueError is how arguments are refused BEFORE sending; after the request has gone out it is not a documented outcome
+                from harness import isospec
+                kind, why = isospec.expected(cfgv, calls[i][1], calls[i][2][:5] if calls[i][1] == 1 else calls[i][2], calls[i][3])
+                if kind == 'reject' and str(why).startswith('extended data size'):
+                    continue        # the known finding of C07 (size validated when decoding): reported there
+                if not (1 <= cfgv[clientlib.SNAP_DID] <= 8) or cfgv[clientlib.EXT_SIZE] > 4095:
+                    continue        # an invalid configuration value (not an input of the property), which the library reports as ValueError when it uses it
+                return ('valueerror-after-send/%s' % c.tag.split(' / ')[1], 'a ValueError escaped after the request was sent, in history %r' % (ops,))
             if d['kind'] == 'raised' and d['err'] not in DOCUMENTED and any(e[0] == 'S' for e in d['events']):
                 return ('internal-error/%s' % c.tag.split(' / ')[1], 'an internal error (code %d) escaped in history %r' % (d['err'], ops))
     except Exception as e:
@@ -181,6 +191,9 @@ def _work(chunk):
             limit = min(limit, 3.0)      # one hang is already a violation: do not spend the full limit on each further case of this worker
         except BaseException as e:  # the impl runner itself must never raise: report as a harness error
             r = ['HARNESS-ERROR', type(e).__name__, str(e)[:200]]
+        if r and r[0] == 'CTX-SWALLOWED':
+            out.append((r, ('exception-swallowed', "the __exit__ of client.%s returned a true value: an exception raised by the last call of the with-block never reaches the caller" % r[1])))
+            continue
         if r and r[0] == 'HANG':
             out.append((r, ('hang', 'the call did not return or raise within %s s of real time (the client clock is virtual: nothing waits)' % (r[1] if len(r) > 1 else '?'))))
             continue
